@@ -338,6 +338,30 @@ func checkC15(c c15Case, o *Obs) error {
 		if r1.Stdout != r2.Stdout {
 			return fmt.Errorf("--trim --trimstart %d --trimend %d differs from --start %d --end %d:\n legacy: %q\n new:    %q", a, b, c.Start, c.End, trunc(r2.Stdout, 400), trunc(r1.Stdout, 400))
 		}
+		// --wrap through the command line, combined with the window and --pad: only re-breaks the lines
+		if c.Wrap > 0 {
+			rw := runBin(30*time.Second, "", nil, append(append([]string{}, argsNew...), "-w", strconv.Itoa(c.Wrap))...)
+			if rw.TimedOut || rw.Exit != 0 {
+				return fmt.Errorf("toMultiAlign --wrap %d failed on valid input: exit %d %s", c.Wrap, rw.Exit, trunc(rw.Stderr, 200))
+			}
+			wn, ws, wl := parseFastaOut(rw.Stdout)
+			bn, bs, _ := parseFastaOut(r1.Stdout)
+			if strings.Join(wn, ",") != strings.Join(bn, ",") {
+				return fmt.Errorf("--wrap %d changes the records: %v vs %v", c.Wrap, wn, bn)
+			}
+			for i := range bs {
+				if ws[i] != bs[i] {
+					return fmt.Errorf("--wrap %d (pad=%v --start %d --end %d) changes the sequence of %s", c.Wrap, c.Pad, c.Start, c.End, bn[i])
+				}
+				for j, n := range wl[i] {
+					last := j == len(wl[i])-1
+					if (!last && n != c.Wrap) || (last && (n < 1 || n > c.Wrap)) {
+						return fmt.Errorf("gofasta sam toMultiAlign --wrap %d (pad=%v --start %d --end %d): record %s has line lengths %v", c.Wrap, c.Pad, c.Start, c.End, bn[i], wl[i])
+					}
+				}
+			}
+			o.Label("wrap-at-process-level")
+		}
 		// and the new flags at process level equal the in-process model of the same window
 		want, err := runToma(*c.Sam, -1, c.Start, c.End, c.Pad, 1)
 		if err != nil {
